@@ -293,6 +293,35 @@ def _fold_none(t, q):
     return tuple(_fold_none(x, q) for x in t)
 
 
+def option_defaults_rule(ctx, rule: str):
+    """'Changing one sampling option leaves the unspecified ones as they were': None is the
+    library's 'not specified' value (every store is guarded by ``is not None``), so every
+    option parameter of every update_softmax_options must default to None -- a default of
+    False / 1.0 at any level of the forwarding chain is forwarded as an explicit value and
+    resets the option at every partial call."""
+    repo = ctx.repo
+    n = 0
+    for fn in repo.all_functions():
+        if fn.name != 'update_softmax_options' or fn.cls is None:
+            continue
+        n += 1
+        d = fn.defaults()
+        opts = fn.params[1:]
+        bad = [(o, ast.unparse(d[o])) for o in opts
+               if o in d and not (isinstance(d[o], ast.Constant) and d[o].value is None)]
+        missing = [o for o in opts if o not in d]
+        ok = not bad and not missing
+        ctx.ob(rule, f'{fn.cls.name}.update_softmax_options defaults', ok,
+               'every option defaults to None (= keep the current value)' if ok else
+               (f'options {[o for o, _ in bad]} default to {[v for _, v in bad]}' if bad else
+                f'options {missing} have no default') +
+               ': a call that names only another option passes this value on as if the user '
+               'had set it, so the option is silently reset (and a model checkpointed after '
+               'such a call no longer matches a fresh wrapper built with the same arguments)',
+               where(fn))
+    ctx.floor(rule, 'update_softmax_options implementations', n, 6)
+
+
 def forwarding_ok(ctx, fn: FunctionInfo, t: Term, p=None):
     """A forwarding call ``x.update_softmax_options(a0, a1, ..., k=v)`` must bind each option
     of the caller to the parameter of the same name of the callee.  Callee signatures are the
@@ -633,6 +662,7 @@ def run(ctx):
     r11d(ctx)
     r11e(ctx)
     r11f(ctx)
+    option_defaults_rule(ctx, 'R11c')
     # which masks are frozen by construction is decided where the maskers are created: the
     # selection rule of C08 (frozen class chosen exactly for width groups that touch a graph
     # input / output / output-connected node, each test over EVERY node of the group, and for
